@@ -94,3 +94,14 @@ Proof.
         (conj gen_align_loop_ok (conj gen_intersection_point_ok (conj gen_scale_system_ok
         (conj gen_intersection_distance_ok gen_scale_fixed_point_ok))))))))).
 Qed.
+
+(* The deck geometry the library publishes (LhDeck4SensorPositions): the constant `diagonal_distance` is the distance
+   between the sensors that _calculate_mean_diagonal pairs up (0-3 and 1-2) in the library's own sensor table. *)
+Theorem gen_deck_diagonal_ok : forall d,
+  length gen_deck_positions = 4%nat /\
+  gen_deck_diagonal = dist (nth 0 gen_deck_positions d) (nth 3 gen_deck_positions d) /\
+  gen_deck_diagonal = dist (nth 1 gen_deck_positions d) (nth 2 gen_deck_positions d).
+Proof.
+  intro d. unfold gen_deck_diagonal, gen_deck_positions, dist, norm. cbn [nth length]. unf.
+  split; [reflexivity|]. split; f_equal; field.
+Qed.
